@@ -243,6 +243,12 @@ func genC10(c *Ctx) {
 			c.add("specpad", hx(ns), strconv.Itoa(int(ver)))
 			sh, err := share.NamespacePaddingShare(nsOf(ns), ver)
 			c.check(err == nil && bytes.Equal(sh.ToBytes(), refPadding(ns, ver)), "NamespacePaddingShare", "not the canonical padding share", map[string]any{"ns": hx(ns), "ver": int(ver)})
+			if err == nil {
+				// the accessors on a padding share of every version (a version 1 padding share is a sequence
+				// start of length 0: signer field present, payload = the 458 bytes behind it)
+				accessorOracle(c, sh.ToBytes())
+				c.add("shinfo", hx(sh.ToBytes()))
+			}
 			for _, cnt := range []int{0, 1, 3} {
 				c.add("pad", "ns", hx(ns), strconv.Itoa(int(ver)), strconv.Itoa(cnt))
 			}
@@ -525,6 +531,12 @@ func genC08(c *Ctx) {
 					g.signer = randSigner(r)
 				}
 			}
+			if r.Intn(7) == 0 {
+				// reserved or tail padding in FRONT of a blob (padding of any kind may sit on either side)
+				items = append(items, pick(r, []string{"t:", "r:"})+strconv.Itoa(1+r.Intn(3)))
+				c.count("padding_before_blob")
+				nontriv = true
+			}
 			blobs = append(blobs, g)
 			items = append(items, "b:"+g.spec())
 			if len(g.data) > 458 {
@@ -733,6 +745,21 @@ func genC09(c *Ctx) {
 		var txs [][]byte
 		if i < nRandom {
 			txs = compactTxList(c, r, 1+r.Intn(12))
+			if i%16 == 7 {
+				// the sequence fills its last share exactly and that share holds nothing but ZERO bytes of the
+				// last transaction (a share that looks like the zero fill behind a shorter sequence)
+				head := r.Bytes(1 + r.Intn(200))
+				k := 1 + r.Intn(3) // continuation shares covered
+				pre := len(refDelimited(head))
+				n := alignedTxLen(pre, 474+478*k-pre-2, 0)
+				last := make([]byte, n)
+				copy(last, r.Bytes(min(n-478-r.Intn(200), 300)))
+				for j := range last[:min(len(last), 20)] {
+					last[j] |= 1
+				}
+				txs = [][]byte{head, last}
+				c.count("zero_filled_last_share")
+			}
 			c.add("compactrt", hx(ns), joinHexList(txs))
 		} else {
 			txs = big[i-nRandom]
